@@ -633,6 +633,8 @@ func (e *c14fEnv) observe(where string) {
 	// no orphan: an in-flight record's current request is on its way or queued in the unit
 	r.Checked("flush-orphan")
 	wait, post := e.cu.VerifVMUQueued()
+	_, _, aside := e.cu.VerifVMUInOrder()
+	post += aside
 	if n := e.unsent(1); n != e.cu.VerifScalarReadBufLen() {
 		e.fail("C14.flush.request-lost", "%s: %d scalar records in flight were never sent, the scalar unit has %d requests queued", where, n, e.cu.VerifScalarReadBufLen())
 	}
@@ -773,6 +775,8 @@ func (e *c14fEnv) tick() {
 			e.r.Checked("flush-ack")
 			f := e.cu.VerifFlushFlags()
 			wait, post := e.cu.VerifVMUQueued()
+			_, _, aside := e.cu.VerifVMUInOrder()
+			post += aside
 			n := len(e.cu.InFlightInstFetch) + len(e.cu.InFlightScalarMemAccess) + len(e.cu.InFlightVectorMemAccess)
 			if !f.IsPaused || f.IsSending || n != 0 || e.cu.VerifScalarReadBufLen()+wait+post != 0 {
 				e.fail("C14.flush.ack-early", "acknowledgement sent with paused=%v, %d records in flight, %d requests queued in the units", f.IsPaused, n, e.cu.VerifScalarReadBufLen()+wait+post)
